@@ -33,6 +33,8 @@ func init() {
 	}
 }
 
+const kPumpResponse = simrt.KUser + 90 // a response about to be returned by the transport: A = sequence number
+
 type sleepyTransport struct {
 	started simrt.Counter // requests that reached the transport
 	lat     []time.Duration
@@ -48,6 +50,9 @@ func (rt *sleepyTransport) RoundTrip(req *http.Request) (*http.Response, error) 
 		req.Body.Close()
 	}
 	time.Sleep(rt.lat[seq%len(rt.lat)])
+	// responses that are due at the same fake instant are handed back one at a time, in an order the
+	// controller draws from the tape (the Go scheduler would pick one at random)
+	simrt.Park(kPumpResponse, 0, int64(seq), 0, 0, nil)
 	if rt.fail > 0 && seq%rt.fail == rt.fail-1 {
 		return nil, errors.New("sim: connection refused")
 	}
